@@ -34,6 +34,8 @@ def trace_cfg(chk, k):
     txt = open(os.path.join(core.SPECS, "AllocTrace.cfg")).read()
     txt = re.sub(r"^(\s*Gran\s*=).*$", r"\1 %d" % k["granularity"], txt, flags=re.M)
     txt = re.sub(r"^(\s*EnvC\s*=).*$", r"\1 %d" % (2 * k["trim_threshold"]), txt, flags=re.M)
+    # NoGratuitousMap exempts big requests only if the code under test HAS a direct-mmap path
+    txt = re.sub(r"^(\s*DirectMap\s*=).*$", r"\1 %d" % (k["direct_map_threshold"] or (1 << 30)), txt, flags=re.M)
     path = os.path.join(chk.work, "AllocTrace_c04.cfg")
     with open(path, "w") as f:
         f.write(txt)
@@ -126,6 +128,25 @@ def run(tier):
                       "k": rng.choice([3, 4, 5]), "iters": 2000 if quick else 6000, "marks": 16, "base": 8,
                       "mode": rng.choice(["fifo", "random"]), "cycle": rng.random() < 0.7, "os": rng.choice("bad"),
                       "seed": rng.randrange(1, 1 << 40), "src": "queue-with-pins"})
+    # the same with sizes from EVERY tree bin (256 B .. >= 12 MiB): several free chunks of the same
+    # bin must be in the tree at once, also in the last, open-ended bins
+    tb = A.tree_bin_sizes(k)
+    for i in range(8 if quick else 60):
+        bins = rng.sample(range(0, 26), rng.randint(4, 7))
+        blocks = [[tb[b] + rng.randrange(-64, 64), 16] for b in bins]
+        plans.append({"kind": "queue", "blocks": blocks, "n_short": rng.choice([3, 5]), "n_long": rng.choice([4, 8]),
+                      "k": rng.choice([2, 3]), "iters": 300 if quick else 1500, "marks": 12, "base": 12,
+                      "mode": rng.choice(["fifo", "random"]), "cycle": rng.random() < 0.5, "os": rng.choice("bad"),
+                      "seed": rng.randrange(1, 1 << 40), "src": "queue-tree-bins"})
+    for i in range(8 if quick else 60):
+        # the last bins: [4, 6), [6, 8), [8, 12), >= 12 MiB (9, 13, 16, 24 MiB ...)
+        blocks = [[rng.choice([tb[28], tb[29], 9 << 20, 10 << 20, 13 << 20, 16 << 20, 20 << 20, 24 << 20]) + rng.randrange(-4096, 4096),
+                   rng.choice([16, 16, 4096])] for _ in range(rng.randint(3, 5))]
+        plans.append({"kind": "queue", "blocks": blocks, "n_short": rng.choice([2, 3]), "n_long": 2, "k": 3,
+                      "iters": 45 if quick else 200, "marks": 9, "base": 9, "mode": "fifo", "cycle": rng.random() < 0.5,
+                      "os": rng.choice("bad"), "seed": rng.randrange(1, 1 << 40), "watchdog": 120, "src": "queue-last-tree-bins"})
+    # (base = marks: with sizes that differ by orders of magnitude the window's demand is not the same
+    # at every mark; these runs are judged by NoGratuitousMap, Envelope, ReleaseOnce)
     # multi-threaded: T threads share one allocator behind tiny-std's own Mutex (lock, one call,
     # unlock - the composition GlobalDlMalloc uses); each thread repeats a TLC-generated workload
     n_mt = 12 if quick else 150
@@ -240,6 +261,7 @@ def run(tier):
         "footprint = bytes held from the simulated OS (exact); 'arbitrarily large N' is N = %d (sample: N = 200): no model of the allocator's internal state shows periodicity yet (DlHeap.tla is future work)" % reps,
         "SteadyState: memory still held at a repetition mark after the first N/2 repetitions <= the most ever held during the first N/2 repetitions + one granularity (a heap that is trimmed after some repetitions and not after others - the OS placed a segment differently - is not growing); runs whose marks after repetition 2 exceed the marks of repetitions 1..2 by more than a granularity are counted as runs_with_transient_after_rep2, not judged",
         "Envelope (workload runs only): footprint <= 2 x peak padded demand + 2 x trim threshold, padded demand of a block = size + 2 x align + 256 + granularity",
+        "NoGratuitousMap exempts requests above a direct-mmap threshold only if the code under test has such a path (constant MMAP_THRESHOLD / fn mmap_alloc in dlmalloc.rs); the pinned port has none, so every request is judged",
         "NoGratuitousMap: an OS request is gratuitous if size + 2 x align + 256 bytes fit into one block-free extent of a single OS-granted piece",
         "real-OS runs (raw syscall wrappers against the real kernel): footprint = growth of the process' VmSize, which also contains whatever the recorder itself maps (its output buffer is pre-reserved); only SteadyState is judged there (60 repetitions, baseline 30)",
         "SteadyState is judged only where the OS policy is the same in every repetition (always below / above / disjoint); runs with a random placement per mapping are judged by Envelope, NoGratuitousMap, ReleaseOnce only",
